@@ -18,7 +18,7 @@ func Union(c explore.Chooser) *prog.Program {
 
 	marker := s.Pick("Shape.marker", "isShape", "IsShape")
 	nmeth := s.Pick("Shape.methods", "1", "0", "2")
-	second := s.Pick("I2", "absent", "other", "embeds-shape", "in-sub", "unreached", "two-more")
+	second := s.Pick("I2", "absent", "other", "embeds-shape", "in-sub", "unreached", "two-more", "in-sub-diamond")
 	reach := s.Pick("reach", "field", "named-slice", "named-map", "top-level-only", "alias", "member-field", "nested-struct", "alias-of-member")
 
 	homonym := s.Pick("homonym", "none", "square-in-sub")
@@ -43,7 +43,7 @@ func Union(c explore.Chooser) *prog.Program {
 		a.WriteString("type Other interface {\n\tisOther()\n}\n\ntype Extra interface {\n\tisExtra()\n}\n\n")
 	case "embeds-shape":
 		a.WriteString("type Other interface {\n\tShape\n\tisOther()\n}\n\n")
-	case "in-sub":
+	case "in-sub", "in-sub-diamond":
 		needSub = true
 		sub.WriteString("type Animal interface {\n\tisAnimal()\n}\n\ntype Cat struct {\n\tLives int\n}\n\nfunc (Cat) isAnimal() {}\n\ntype Dog struct {\n\tName string\n}\n\nfunc (Dog) isAnimal() {}\n\ntype Fish int\n\nfunc (*Fish) isAnimal() {}\n\n")
 	}
@@ -201,6 +201,8 @@ func Union(c explore.Chooser) *prog.Program {
 		holder = append(holder, "\tO Other")
 	case "in-sub":
 		holder = append(holder, "\tA sub.Animal", "\tC sub.Cat")
+	case "in-sub-diamond": // the package of the union is reached by two import paths (un -> sub, un -> mid -> sub)
+		holder = append(holder, "\tA sub.Animal", "\tC sub.Cat", "\tK mid.Kennel")
 	}
 	// a direct field on a candidate so that struct members are also reached as plain fields
 	switch circleKind {
@@ -213,12 +215,17 @@ func Union(c explore.Chooser) *prog.Program {
 
 	hdr := "package un\n\n"
 	asrc := a.String()
-	if needSub && strings.Contains(asrc, "sub.") {
+	if second == "in-sub-diamond" {
+		hdr += fmt.Sprintf("import (\n\t%q\n\t%q\n)\n\n", rootPath+"/mid", subPath)
+	} else if needSub && strings.Contains(asrc, "sub.") {
 		hdr += fmt.Sprintf("import %q\n\n", subPath)
 	}
 	p := &prog.Program{Family: "F-union", Analysed: []string{"a.go"}, Features: s.Feats}
 	if needSub {
 		p.Pkgs = append(p.Pkgs, &prog.Pkg{Path: subPath, Name: "sub", Files: []prog.File{{Name: "sub.go", Src: "package sub\n\n" + sub.String()}}})
+	}
+	if second == "in-sub-diamond" {
+		p.Pkgs = append(p.Pkgs, &prog.Pkg{Path: rootPath + "/mid", Name: "mid", Files: []prog.File{{Name: "mid.go", Src: "package mid\n\nimport \"" + subPath + "\"\n\ntype Kennel struct {\n\tDogs []sub.Dog\n}\n"}}})
 	}
 	bsrc := "package un\n\n" + b.String()
 	if needSub && !strings.Contains(asrc, "sub.") {
